@@ -128,7 +128,8 @@ def run(ctx, out):
     P = G.Packets(spec)
     rng = ctx.rng
     thorough = ctx.search_tier == "thorough"
-    tokens = ["a", "b", "c"]
+    # one short token and two long ones that agree on their first 24 characters
+    tokens = ["a", "ORDER-2024-11-05-000123-A", "ORDER-2024-11-05-000123-B"]
     begin_out = {"ok1": [P.status(receipt_no=11, result_code=0), P.completion()],
                  "ok2": [P.status(receipt_no=7, result_code=0), P.intermediate(), P.status(receipt_no=4242, result_code=0), P.completion()],
                  "abort": [P.abort(0x6c)], "noreceipt": [P.status(result_code=0), P.completion()],
@@ -195,7 +196,7 @@ def run(ctx, out):
     slow = rng.sample(cases, min(len(cases), 600 if thorough else 150))
     sops, _ = run_histories(ctx, out, slow, "begin/commit/cancel history, slow terminal", gap=14)
     out.count("slow-terminal", len(sops))
-    out.rule = (f"call histories over tokens a,b,c x terminal outcomes (begin: receipt issued / aborted / completed without receipt / receipt reported and then aborted; commit, cancel: completed / aborted): all histories up to depth 2 x max 0..3, "
+    out.rule = (f"call histories over three tokens (one short, two long ones sharing a 24-character prefix) x terminal outcomes (begin: receipt issued / aborted / completed without receipt / receipt reported and then aborted; commit, cancel: completed / aborted): all histories up to depth 2 x max 0..3, "
                 f"{'all' if thorough else '5000 sampled'} of depth {depth}, random walks to depth 40; the real Feig client against the simulated terminal must return exactly the results of the abstract token map and send exactly "
                 "the specified packets (refused calls: none); implementation = model = abstract specification. non-trivial = distinct (max, history, outcomes)")
     out.samples = [ops[5][:400], {"op": ops[-1][:200], "impl": impl[-1][:300]}]
